@@ -3,19 +3,24 @@ from common import COMMON_TB
 PROP = {
     "bin": "c08",
     "prop_file": "Properties/C08.v",
-    "model_files": ["Columnar/BitPack.v", "Columnar/MonoMap.v", "Columnar/Stats.v", "Columnar/Line.v", "Columnar/Blockwise.v", "Columnar/Spec.v", "Columnar/Cases.v"],
+    "model_files": ["Columnar/BitPack.v", "Columnar/MonoMap.v", "Columnar/Stats.v", "Columnar/Line.v", "Columnar/Blockwise.v", "Columnar/BlockwiseProofs.v", "Columnar/OptionalIndex.v", "Columnar/Spec.v", "Columnar/Cases.v"],
     "level": "proof",
     "engine": "E5-codecs",
-    "level_text": "Proof (value lists of any length, every width allowed by the pinned 56/64 rule): BitPacker::write/flush lays values out as the little-endian bit string and "
-                  "BitUnpacker::get (fast and <8-byte slow path) extracts exactly the w-bit window, hence get(pack(vals)) = vals; compute_num_bits always yields an accepted width; "
-                  "StatsCollector (min, max, Euclid gcd with proved-adequate fuel, rows) bounds all values, is attained, and its wire form reproduces max; the bit-packed column codec "
-                  "(min + gcd*q) is exact for every u64 column incl. 0 and 2^64-1; i64/bool/f64 mappings are inverted and strictly monotone (f64 on bit patterns w.r.t. the sign-magnitude key). "
-                  "Range transform of the bit-packed reader is proved exact when hi >= column min and refuted below it (F81).",
+    "level_text": "Proof (value lists of ANY length, every width allowed by the pinned 56/64 rule, all of u64 incl. 0 and 2^64-1): BitPacker::write/flush lays values out as the "
+                  "little-endian bit string and BitUnpacker::get (fast path and <8-byte slow path) extracts exactly the w-bit window, hence get(pack(vals)) = vals; compute_num_bits always "
+                  "yields an accepted width; StatsCollector (min, max, Euclid gcd with fuel proved adequate, rows) bounds all values, is attained, and its wire form reproduces max; all three "
+                  "column codecs are proved exact: bit-packed (min + gcd*q), linear (Line::train/eval with wrapping arithmetic, >>32, as i32; exact whatever the line), block-wise linear "
+                  "(512-row blocks, one bit packer shared across blocks, reader-side offset recomputation); reported min/max/num_vals are proved for each; range lookup on bit-packed columns is "
+                  "proved to return exactly the rows holding a value in the range unless the range lies below the column minimum, where it is refuted (F81, genuine defect, witness theorem); "
+                  "i64/bool/f64 mappings are proved inverted and strictly monotone (f64 on bit patterns w.r.t. the sign-magnitude key). "
+                  "PARTIAL (executable model tied by cases + list specification evaluated in Coq on the implementation's answers, no general theorem yet): optional index rank/select "
+                  "(dense/sparse blocks), multivalued start offsets, compact space for u128 (IP columns: spec level only), stacked/shuffled merge and dictionary-ordinal remapping (spec level only).",
     "level_note": "Trusted: Coq kernel + vm_compute; pin.py; harness. fastdivide::DividerU64 is a Section variable with contract fdiv d x = x / d. The estimator's codec choice is not modelled "
-                  "(every codec is forced in turn and must be exact; only decoded behaviour is compared). VInt framing of the header is parsed by the harness, not modelled. "
-                  "IEEE-754 order of non-NaN doubles = order of the sign-magnitude key: tied by differential runs against Rust's f64 comparison.",
+                  "(every codec is forced in turn and must be exact; only decoded behaviour is compared). VInt framing of column headers/footers is parsed by the harness, not modelled. "
+                  "IEEE-754 order of non-NaN doubles = order of the sign-magnitude key: tied by differential runs against Rust's f64 comparison; f64 range lookups are specified in the "
+                  "total order of the mapping (-0.0 < +0.0). No axioms (Print Assumptions: closed under the global context).",
     "technique": "Coq proof (N bit arithmetic: shifts as div/mod 2^k, disjoint lor as addition; list induction) + correspondence cases evaluated by vm_compute",
-    "rule": "non-trivial: bit-packer cases with >= 2 values and width >= 1; codec/column cases with >= 2 rows; every mapping case; distinct by hash of the Gallina case term",
+    "rule": "non-trivial: bit-packer cases with >= 2 values and width >= 1; codec / column / optional-index / merge cases with >= 2 rows; every mapping case; distinct by hash of the Gallina case term. Bulk volume (columns up to 200k rows, all types and cardinalities, merges, tantivy segments) is decided on the implementation side against the list-of-lists specification (spec_checked)",
     "trusted_base": COMMON_TB + ["fastdivide::DividerU64::divide modelled by its contract (floor division), Section hypothesis",
                                  "bitpacking::BitPacker1x (SIMD-layout batch decode inside get_batch_u32s) is not modelled: range lookups are tied at the result level only",
                                  "VInt header framing of serialized columns is parsed on the harness side"],
